@@ -1,10 +1,12 @@
 package main
 
 import (
+	"bufio"
 	"encoding/json"
 	"flag"
 	"fmt"
 	"math/rand"
+	"os"
 	"time"
 
 	"github.com/gdamore/tcell/v2"
@@ -54,7 +56,32 @@ func (r *simRun) drain(afterShow bool) {
 	r.tw.Emit(trace.Ev{"ev": "Drain", "evs": evs, "aftershow": afterShow})
 }
 
-func simHistory(tw *trace.Writer, rng *rand.Rand, cs string, nops int, encRunes []rune) (int, error) {
+// op is one call on the simulator; planned histories (TLC behaviours of SimModel) come as JSON arrays of them
+type op struct {
+	kind    string
+	x, y    int
+	r       rune
+	comb    []rune
+	st      tcell.Style
+	w, h    int
+	on      bool
+	subst   string
+	text    []rune
+	key     tcell.Key
+	mod     tcell.ModMask
+	buttons tcell.ButtonMask
+}
+
+type simOpJSON struct {
+	Op string `json:"op"`
+	X  int    `json:"x"`
+	Y  int    `json:"y"`
+	W  int    `json:"w"`
+	H  int    `json:"h"`
+	R  rune   `json:"r"`
+}
+
+func simHistory(tw *trace.Writer, rng *rand.Rand, cs string, nops int, encRunes []rune, planned []simOpJSON) (int, error) {
 	s := tcell.NewSimulationScreen(cs)
 	if err := s.Init(); err != nil {
 		return 0, err
@@ -62,20 +89,6 @@ func simHistory(tw *trace.Writer, rng *rand.Rand, cs string, nops int, encRunes 
 	defer s.Fini()
 	r := &simRun{tw: tw, s: s, cs: cs}
 	// plan first: the Config event lists the encoding of every rune used
-	type op struct {
-		kind    string
-		x, y    int
-		r       rune
-		comb    []rune
-		st      tcell.Style
-		w, h    int
-		on      bool
-		subst   string
-		text    []rune
-		key     tcell.Key
-		mod     tcell.ModMask
-		buttons tcell.ButtonMask
-	}
 	w, h := 2+rng.Intn(6), 1+rng.Intn(3)
 	var ops []op
 	ops = append(ops, op{kind: "SetSize", w: w, h: h}, op{kind: "Show"})
@@ -136,6 +149,17 @@ func simHistory(tw *trace.Writer, rng *rand.Rand, cs string, nops int, encRunes 
 		}
 	}
 	ops = append(ops, op{kind: "Show"})
+	if planned != nil {
+		ops = []op{{kind: "SetSize", w: 3, h: 1}, {kind: "Show"}}
+		for _, p := range planned {
+			o := op{kind: p.Op, x: p.X, y: p.Y, w: p.W, h: p.H, r: p.R, st: tcell.StyleDefault}
+			if p.Op == "InjectKey" {
+				o.key = tcell.KeyRune
+			}
+			ops = append(ops, o)
+		}
+		ops = append(ops, op{kind: "Show"})
+	}
 	enc := tcell.GetEncoding(cs)
 	encmap := map[string][]int{}
 	note := func(r rune) {
@@ -194,6 +218,8 @@ func simHistory(tw *trace.Writer, rng *rand.Rand, cs string, nops int, encRunes 
 			c, pw, ph := r.cells()
 			tw.Emit(trace.Ev{"ev": o.kind, "cells": c, "pw": pw, "ph": ph, "cursor": r.cursor()})
 			r.drain(true)
+		case "Drain":
+			r.drain(false)
 		case "SetSize":
 			s.SetSize(o.w, o.h)
 			c, pw, ph := r.cells()
@@ -289,6 +315,8 @@ func simMain(args []string) error {
 	seed := fs.Int64("seed", 1, "seed")
 	n := fs.Int("random", 20, "histories per charset")
 	nops := fs.Int("ops", 30, "operations per history")
+	beh := fs.String("behaviours", "", "TLC-generated histories of SimModel (JSON arrays of ops), replayed on a UTF-8 and a legacy simulator")
+	behEvery := fs.Int("behevery", 1, "replay every n-th generated history only")
 	fs.Parse(args)
 	encoding.Register()
 	tw, err := trace.Create(*out)
@@ -297,6 +325,32 @@ func simMain(args []string) error {
 	}
 	rng := rand.New(rand.NewSource(*seed))
 	hists, ops := 0, 0
+	if *beh != "" {
+		f, err := os.Open(*beh)
+		if err != nil {
+			return err
+		}
+		sc := bufio.NewScanner(f)
+		sc.Buffer(make([]byte, 1<<20), 1<<26)
+		nb := 0
+		for sc.Scan() {
+			nb++
+			if (nb+int(*seed))%*behEvery != 0 {
+				continue
+			}
+			var plan []simOpJSON
+			if err := json.Unmarshal(sc.Bytes(), &plan); err != nil {
+				return err
+			}
+			k, err := simHistory(tw, rng, []string{"UTF-8", "EUC-JP"}[nb%2], 0, nil, plan)
+			if err != nil {
+				return err
+			}
+			hists++
+			ops += k
+		}
+		f.Close()
+	}
 	for _, cs := range statelessCharsets {
 		enc := tcell.GetEncoding(cs)
 		rs := encodable(cs, enc, 37)
@@ -304,7 +358,7 @@ func simMain(args []string) error {
 			rs = rs[:400]
 		}
 		for i := 0; i < *n; i++ {
-			k, err := simHistory(tw, rng, cs, *nops/2+rng.Intn(*nops), rs)
+			k, err := simHistory(tw, rng, cs, *nops/2+rng.Intn(*nops), rs, nil)
 			if err != nil {
 				return fmt.Errorf("%s: %v", cs, err)
 			}
